@@ -20,10 +20,12 @@ import (
 	"context"
 	"fmt"
 	"reflect"
+	"runtime/debug"
 
 	"github.com/cloudwego/eino/callbacks"
 	icb "github.com/cloudwego/eino/internal/callbacks"
 	"github.com/cloudwego/eino/internal/generic"
+	"github.com/cloudwego/eino/internal/safe"
 	"github.com/cloudwego/eino/schema"
 )
 
@@ -165,7 +167,17 @@ func runWithCallbacks[I, O, TOption any](r func(context.Context, I, ...TOption) 
 	return func(ctx context.Context, input I, opts ...TOption) (output O, err error) {
 		ctx, input = onStart(ctx, input)
 
-		output, err = r(ctx, input, opts...)
+		output, err = func() (O, error) {
+			// a panic of the unit ends it for its handlers as well: report it as the unit's error,
+			// then let it travel on to whoever recovers it (node executor, tool goroutine)
+			defer func() {
+				if panicInfo := recover(); panicInfo != nil {
+					_, _ = onError(ctx, safe.NewPanicErr(panicInfo, debug.Stack()))
+					panic(panicInfo)
+				}
+			}()
+			return r(ctx, input, opts...)
+		}()
 		if err != nil {
 			ctx, err = onError(ctx, err)
 			return output, err
